@@ -80,6 +80,9 @@ ITER_FRAGMENT = [
 # buffer behind `self.buf` is the state.  (`Drop for Drain` — guards dropped explicitly, the back-fill
 # `while` loop over `CircularSlicePtr` — is outside the subset: hand model + correspondence.)
 DRAIN_IMPL = "impl<'a, const N: usize, T> Drain<'a, N, T>"
+# `CircularSlicePtr { slice_start, slice_len, offset }`: `self` is a `CSP { sliceLen, offset }` value named `p`;
+# a pointer `slice_start.add(k)` into the slice is the slot number `k` (the slice is the whole `items` array)
+CSP_IMPL = "impl<'a, T> CircularSlicePtr<'a, T>"
 DRAIN_FRAGMENT = [
     ("Drain_over_range", DRAIN_IMPL, "over_range", "_root_.CircBuf.Drain.new"),
     ("Drain_read", DRAIN_IMPL, "read", "_root_.CircBuf.Drain.read"),
@@ -88,6 +91,10 @@ DRAIN_FRAGMENT = [
     ("Drain_next", "impl<const N: usize, T> Iterator for Drain<'_, N, T>", "next", "_root_.CircBuf.Drain.next"),
     ("Drain_next_back", "impl<const N: usize, T> DoubleEndedIterator for Drain<'_, N, T>", "next_back", "_root_.CircBuf.Drain.nextBack"),
     ("Drain_len", "impl<const N: usize, T> ExactSizeIterator for Drain<'_, N, T>", "len", "fun d => pure (_root_.CircBuf.Drain.len d)"),
+    ("CSP_as_ptr", CSP_IMPL, "as_ptr", "_root_.CircBuf.CSP.ptr"),
+    ("CSP_as_mut_ptr", CSP_IMPL, "as_mut_ptr", "_root_.CircBuf.CSP.ptr"),
+    ("CSP_available_len", CSP_IMPL, "available_len", "_root_.CircBuf.CSP.availableLen"),
+    ("CSP_add", CSP_IMPL, "add", "_root_.CircBuf.CSP.add"),
     ("Drain_drop", "impl<const N: usize, T> Drop for Drain<'_, N, T>", "drop", "_root_.CircBuf.Drain.drop"),
 ]
 # the `while v > 0 { .. }` loop of `Drop for Drain` becomes the fuelled loop `whileFuel` (Mem.lean) over a step
@@ -98,7 +105,8 @@ DRAIN_LOOP_FALLBACK = ("Drain_drop_step", "Drain → CSP × CSP × Nat → M (CS
                        "fun _ => _root_.CircBuf.backfillStep")
 DRAIN_SIG = {"Drain_over_range": "Bound → Bound → M (Drain)", "Drain_read": "Drain → Nat → M (Elem)",
              "Drain_as_slices": "Drain → M (View × View)", "Drain_as_mut_slices": "Drain → M (View × View)",
-             "Drain_drop": "Drain → M (Unit)",
+             "Drain_drop": "Drain → M (Unit)", "CSP_as_ptr": "CSP → M (Nat)", "CSP_as_mut_ptr": "CSP → M (Nat)",
+             "CSP_available_len": "CSP → M (Nat)", "CSP_add": "CSP → Nat → M (CSP)",
              "Drain_next": "Drain → M (Option Elem × Drain)", "Drain_next_back": "Drain → M (Option Elem × Drain)",
              "Drain_len": "Drain → M (Nat)"}
 PANIC_TAG = {
@@ -530,6 +538,7 @@ class Emit:
         self.ndoc = 0            # documented panics seen so far in this function
         self.iter_mode = False   # `self` is an `Iter { right, left }` value named `it`
         self.drain_mode = False  # `self` is a `Drain` value named `d`
+        self.csp_mode = False    # `self` is a `CSP` value named `p`
         self.live_guards = {}    # drain mode: guard values that are dropped explicitly (`drop(g)`), by name
         self.aux_defs = []       # definitions emitted before the function (the loop of `Drop for Drain`)
         self.guards = set()   # local structs whose Drop impl drops a slice in place
@@ -562,6 +571,8 @@ class Emit:
                 return [], "(← getBuf).cap", "nat"
             if n == "None":
                 return [], "none", "opt"
+            if n == "self" and self.csp_mode:
+                return [], "p", "csp"
             if n in self.kinds:
                 return [], lean_name(n), self.kinds[n]
             raise TErr(f"unknown name {n}")
@@ -588,6 +599,10 @@ class Emit:
                 raise TErr("struct literal of an unknown shape")
             return pre, (f"(⟨{vals['buf_size']}, {vals['range'][0]}, {vals['range'][1]}, "
                          f"{vals['iter'][0]}, {vals['iter'][1]}⟩ : Drain)"), "drain"
+        if k == "path" and e[1] == "self" and self.csp_mode:
+            return [], "p", "csp"
+        if k == "field" and self.csp_mode and e[1] == ("path", "self") and e[2] in ("offset", "slice_len"):
+            return [], "p.offset" if e[2] == "offset" else "p.sliceLen", "nat"
         if k == "field" and self.drain_mode:
             if e[1] == ("path", "self") and e[2] == "buf_size":
                 return [], "d.bufSize", "nat"
@@ -815,6 +830,9 @@ class Emit:
 
     def ex_mcall(self, e):
         recv, name, args = e[1], e[2], e[3]
+        if self.csp_mode and recv == ("field", ("path", "self"), "slice_start") and name == "add" and len(args) == 1:
+            p, v, kk = self.ex(args[0])
+            return p, v, "ptr"
         if self.drain_mode:
             if recv == ("field", ("path", "self"), "buf") and name in ("as_ref", "as_mut") and not args:
                 return [], "()", "bufref"
@@ -909,13 +927,13 @@ class Emit:
             if name == "add" and len(args) == 1:
                 p2, b, _ = self.ex(args[0])
                 t = self.fresh("c")
-                return p + p2 + [f"let {t} ← CSP.add {par(v)} {par(b)}"], t, "csp"
+                return p + p2 + [f"let {t} ← Gen.CSP_add {par(v)} {par(b)}"], t, "csp"
             if name == "available_len" and not args:
                 t = self.fresh("n")
-                return p + [f"let {t} ← CSP.availableLen {par(v)}"], t, "nat"
+                return p + [f"let {t} ← Gen.CSP_available_len {par(v)}"], t, "nat"
             if name in ("as_ptr", "as_mut_ptr") and not args:
                 t = self.fresh("q")
-                return p + [f"let {t} ← CSP.ptr {par(v)}"], t, "ptr"
+                return p + [f"let {t} ← Gen.CSP_{name} {par(v)}"], t, "ptr"
         if self.drain_mode and name == "min" and kk == "nat" and len(args) == 1:
             p2, b, kb = self.ex(args[0])
             if kb != "nat":
@@ -1036,6 +1054,9 @@ class Emit:
                 if kk != "view":
                     raise TErr("assignment of a non-slice to an iterator field")
                 return p + [f"let it : Iter := {{ it with {lhs[2]} := {v} }}"]
+            if self.csp_mode and op == "=" and lhs == ("field", ("path", "self"), "offset"):
+                p, v, _ = self.ex(rhs)
+                return p + [f"let p : CSP := {{ p with offset := {v} }}"]
             if self.drain_mode and lhs[0] == "path" and self.kinds.get(lhs[1]) in ("nat", "csp"):
                 # assignment to a local (`let mut`): the name is rebound
                 if op == "=":
@@ -1394,7 +1415,9 @@ def parse_sig(sig, iter_mode=False):
     plist_items.append(cur)
     for p in [x.strip() for x in plist_items if x.strip()]:
         if p in ("&self", "&mut self", "self", "mut self"):
-            if iter_mode == "drain":
+            if iter_mode == "csp":
+                params.append(("p", "CSP", "csp"))
+            elif iter_mode == "drain":
                 params.append(("d", "Drain", "drain"))
                 recv_mut = p == "&mut self"
             elif iter_mode:
@@ -1415,7 +1438,12 @@ def parse_sig(sig, iter_mode=False):
             params.append((n, None, "rangebounds"))
         else:
             raise TErr(f"parameter type {t}")
-    if iter_mode == "drain":
+    if iter_mode == "csp":
+        if ret == "Self":
+            return params, ("CSP", "csp")
+        if ret in ("*const T", "*mut T"):
+            return params, ("Nat", "ptr")
+    elif iter_mode == "drain":
         if ret == "Self":
             return params, ("Drain", "drain")
         if ret == "T":
@@ -1484,10 +1512,12 @@ def translate_drain(src, gname, impl_re, fname, fragment):
     # `&*(s as *const [MaybeUninit<T>] as *const [T])` is `slice_assume_init_ref(s)` spelled with casts
     body = re.sub(r"&\s*\*\s*\(\s*(\w+)\s+as\s+\*const\s+\[MaybeUninit<T>\]\s+as\s+\*const\s+\[T\]\s*\)", r"slice_assume_init_ref(\1)", body)
     body = re.sub(r"&mut\s*\*\s*\(\s*(\w+)\s+as\s+\*mut\s+\[MaybeUninit<T>\]\s+as\s+\*mut\s+\[T\]\s*\)", r"slice_assume_init_mut(\1)", body)
-    params, (rty, rkind) = parse_sig(sig, iter_mode="drain")
+    csp = impl_re == CSP_IMPL
+    params, (rty, rkind) = parse_sig(sig, iter_mode="csp" if csp else "drain")
     ast = Parser(tokenize(body)).block()
     em = Emit(gname, fragment)
     em.drain_mode = True
+    em.csp_mode = csp
     lean_params = []
     for n, t, kk in params:
         em.kinds[n] = kk
